@@ -542,6 +542,16 @@ def debug_descs(tier, rnd):
                     dbgs[pos] = "both"
                     descs.append({"kind": "struct", "variants": [{"name": "S%d" % len(descs), "shape": shape, "fields": fields(n, shape, dbgs)}]})
                     descs.append({"kind": "enum", "variants": [{"name": "U0", "shape": "unit", "fields": []}, {"name": "V1", "shape": shape, "fields": fields(n, shape, dbgs)}]})
+    # several variants that each delegate to a transparent field at the SAME position / name, of different types and next to different
+    # other fields (their arms have nothing in common but the binding's name)
+    for shape in ("tuple", "named"):
+        descs.append({"kind": "enum", "variants": [{"name": "V0", "shape": shape, "fields": fields(1, shape, ["transparent"])},
+                                                  {"name": "V1", "shape": shape, "fields": fields(1, shape, ["transparent"])},
+                                                  {"name": "V2", "shape": shape, "fields": fields(2, shape, ["transparent", "none"])},
+                                                  {"name": "V3", "shape": shape, "fields": fields(2, shape, ["transparent", "ignore"])},
+                                                  {"name": "V4", "shape": shape, "fields": fields(3, shape, ["none", "transparent", "none"])},
+                                                  {"name": "V5", "shape": shape, "fields": fields(3, shape, ["ignore", "transparent", "none"])},
+                                                  {"name": "U6", "shape": "unit", "fields": []}]})
     # names that are keywords (written as raw identifiers; printed without `r#` like the standard derive does)
     kw = {"kind": "enum", "variants": [{"name": "match", "shape": "unit", "fields": []}, {"name": "loop", "shape": "tuple", "fields": fields(1, "tuple", ["none"])},
                                         {"name": "fn", "shape": "named", "fields": fields(2, "named", ["none", "ignore"])}, {"name": "V3", "shape": "named", "fields": fields(1, "named", ["none"])}]}
